@@ -225,6 +225,8 @@ def shards(tier, seed):
     out.append(("long_lengths", dict(kind="long_lengths")))
     out.append(("pyopt_long_lengths", dict(kind="long_lengths", _pyopt=True)))
     out.append(("pyopt_mutants", dict(kind="mutants", count=1500, _pyopt=True)))
+    out.append(("child_dev_mutants", dict(kind="mutants", count=800, _pyopt="dev+maxdigits")))
+    out.append(("child_dev_long_lengths", dict(kind="long_lengths", _pyopt="dev")))
     out.append(("child_bb_mutants", dict(kind="mutants", count=1500, _pyopt="bb")))
     out.append(("child_bb_short_integer", dict(kind="short_all", reader="integer", _pyopt="bb")))
     out.append(("child_bb_long_lengths", dict(kind="long_lengths", _pyopt="bb")))
